@@ -172,3 +172,15 @@ Definition suite_body (inp obs : list tok) : verdict :=
 Definition suite_C01 (inp obs : list tok) : verdict := suite_body inp obs.
 Definition suite_C01chain (inp obs : list tok) : verdict := suite_body inp obs.
 Definition suite_C01reg (inp obs : list tok) : verdict := suite_body inp obs.
+
+(* ------------------------------------------------------------------ well-formed cases
+   what the theorems assume of a case (the parser enforces all of it except that it also admits
+   a fake parent ending exactly at 2^64, which the generator uses for offset / split_at only):
+   a slice root is an address range ending below 2^64; a mapped root has at least one region,
+   each smaller than REG_STRIDE, at most 2^20 of them *)
+Definition wf_regions (l : list (N * N)) : Prop :=
+  Forall (fun r => snd r < REG_STRIDE) l /\ N.of_nat (length l) <= 1048576.
+Definition wf_case (c : case01) : Prop :=
+  c_rootk c <= RK_GMEM /\
+  (if is_slice_root (c_rootk c) then c_base c + c_len c < W64
+   else c_regions c <> [] /\ wf_regions (c_regions c)).
